@@ -241,6 +241,10 @@ def machine_spec(
     if sends and any(c["sends"] for c in cbs) and draw(st.integers(0, 4)) == 0:
         # callbacks that send also attach a (callback-less) listener first: attaching must not disturb the processing in progress
         spec["attach_in_callbacks"] = True
+    # the constructor's parameters are public, in the documented order (model, state_field, start_value, rtc,
+    # allow_event_without_transition, listeners): some machines are created with positional arguments (added after round 6, C03k)
+    if draw(st.integers(0, 3)) == 0:
+        spec["ctor_positional"] = True
     return spec
 
 
